@@ -40,14 +40,17 @@ Near(x, S) == \E y \in S : x >= y - 3 /\ x <= y + 3
 (* Input spaces (enumerated lazily by TLC, never built as one set):         *)
 (*  trunc    - every line length 0..3L and every column 1..len+1, on the    *)
 (*             middle line of a three-line file                             *)
-(*  window   - file lengths 0..5 as read back from disk, diagnostic lines   *)
-(*             1..7 (also beyond the end), readable or not, short/long line *)
+(*  window   - file lengths 0..5 (and around 10 / 100: the line-number      *)
+(*             gutter changes width) as read back from disk, diagnostic     *)
+(*             lines 1..7, 8..10, 98..101 (also beyond the end), readable   *)
+(*             or not, short/long line                                      *)
 (*  boundary - lengths and columns within 3 of every regime boundary        *)
 InitInput ==
   \/ /\ Mode = "trunc"
      /\ \E n \in 0..(3 * L) : \E c \in 1..(n + 1) : In(3, 2, n, c, TRUE)
   \/ /\ Mode = "window"
-     /\ \E nl \in 0..5, ln \in 1..7, n \in {0, 4, 3 * L}, c \in {1, 3}, r \in BOOLEAN : c <= n + 1 /\ In(nl, ln, n, c, r)
+     /\ \E nl \in (0..5) \cup {9, 10, 11, 99, 100, 101}, ln \in (1..7) \cup {8, 9, 10, 98, 99, 100, 101}, n \in {0, 4, 3 * L}, c \in {1, 3}, r \in BOOLEAN :
+          c <= n + 1 /\ In(nl, ln, n, c, r)
   \/ /\ Mode = "boundary"
      /\ \E n \in 0..(3 * L) :
           /\ Near(n, {0, L, L + 3, 2 * L - 6, 2 * L - 3, 2 * L, 3 * L})
